@@ -58,7 +58,7 @@ def run_concrete(fn, witness, part=None):
 
 
 def explore(fn, part=None, *, budget=600.0, per_path=30.0, max_failures=8, max_samples=4,
-            max_paths=None, twin=True):
+            max_paths=None, twin=True, max_fail_paths=30):
     """Explore all paths of fn(inp[, part]). Returns a result dict (JSON-able)."""
     opts = DEFAULT_OPTIONS
     root = RootNode()
@@ -163,7 +163,7 @@ def explore(fn, part=None, *, budget=600.0, per_path=30.0, max_failures=8, max_s
                     res["unknown_reasons"].append("%s: %s" % (type(e).__name__, str(e)[:200]))
                 status = VerificationStatus.UNKNOWN
             _a, exhausted = space.bubble_status(CallAnalysis(status))
-        if len(fail_keys) >= max_failures:
+        if len(fail_keys) >= max_failures or sum(fail_keys.values()) >= max_fail_paths:
             break
         if exhausted:
             res["exhausted"] = True
